@@ -65,13 +65,13 @@ suite_ok = "FAILED" not in r.stdout and "error" not in r.stdout and "test result
 ran.append("with change: cargo test --workspace --offline -> %s" % ("all pass" if suite_ok else "FAIL: " + r.stdout[-300:]))
 # 2. demo fails with the change
 place_demo()
-r = sh("timeout 900 %s 2>&1 | tail -300" % demo_cmd)
+r = sh("timeout 900 %s 2>&1 | tail -5000" % demo_cmd)
 ran_some = re.search(r"running [1-9]\d* test", r.stdout) is not None
 demo_fails = ran_some and (("test result: FAILED" in r.stdout) or ("panicked" in r.stdout and "test result: ok" not in r.stdout))
 ran.append("with change: %s -> %s" % (demo_cmd, "FAILS (expected)" if demo_fails else "passes?! " + r.stdout[-300:]))
 # 3. demo passes without the change
 sh("git apply -R %s" % patch)
-r = sh("timeout 900 %s 2>&1 | tail -300" % demo_cmd)
+r = sh("timeout 900 %s 2>&1 | tail -5000" % demo_cmd)
 demo_passes = "test result: ok" in r.stdout and "FAILED" not in r.stdout and re.search(r"running [1-9]\d* test", r.stdout) is not None
 ran.append("clean tree: %s -> %s" % (demo_cmd, "passes (expected)" if demo_passes else "FAIL: " + r.stdout[-300:]))
 remove_demo()
